@@ -45,8 +45,10 @@ def scenario(r, g, free_left, target, ti, in_root_fill=None):
     name, mk = target
     ops += mk(ti)
     # follow-ups: the filesystem must still work; make room, retry
-    ops += [["listdir", "/d"], ["listdir", "/"], ["exists", "/d/KEEP.BIN"], ["readbytes", "/d/KEEP.BIN"],
-            ["remove", "/e/FILL000.BIN"], ["remove", "/e/FILL001.BIN"]]
+    ops += [["listdir", "/d"], ["listdir", "/"], ["exists", "/d/KEEP.BIN"], ["readbytes", "/d/KEEP.BIN"]]
+    # something small that still fits must still be accepted right after the failure (no stale allocator state)
+    ops += [["writebytes", "/e/TINY.BIN", 5000 + ti, 20], ["appendbytes", "/d/KEEP.BIN", 6000 + ti, 3]]
+    ops += [["remove", "/e/FILL000.BIN"], ["remove", "/e/FILL001.BIN"]]
     if in_root_fill:
         ops += [["remove", "/R00.TXT"], ["remove", "/R01.TXT"], ["remove", "/R02.TXT"]]
     ops += mk(ti + 50)
